@@ -50,6 +50,7 @@ impl Opts {
 struct Norm<'a> {
     opts: &'a Opts,
     psess: &'a ParseSess,
+    depth: usize,
 }
 
 fn is_reorderable_decl(i: &ast::Item) -> Option<u8> {
@@ -99,6 +100,9 @@ fn single_expr_block(b: &ast::Block) -> Option<&P<ast::Expr>> {
     }
     match &b.stmts[0].kind {
         ast::StmtKind::Expr(e) => Some(e),
+        // `{ return; }`: block-versus-expression body combined with the optional
+        // semicolon after a trailing return / break / continue
+        ast::StmtKind::Semi(e) if matches!(e.kind, ast::ExprKind::Ret(..) | ast::ExprKind::Break(..) | ast::ExprKind::Continue(..)) => Some(e),
         _ => None,
     }
 }
@@ -201,6 +205,7 @@ impl<'a> MutVisitor for Norm<'a> {
                 }
             }
             ast::ItemKind::MacCall(m) => self.norm_mac(m),
+            ast::ItemKind::MacroDef(_, def) => self.norm_macro_def(def),
             ast::ItemKind::Impl(imp) if !self.opts.reorder_impl_items => fix_generics(&mut imp.generics),
             ast::ItemKind::Impl(imp) => {
                 fix_generics(&mut imp.generics);
@@ -402,12 +407,162 @@ impl<'a> MutVisitor for Norm<'a> {
     }
 }
 
+/// `$name` -> `zz_dollar_name` (what rustfmt does before parsing a macro body);
+/// `None` when the stream contains a `$` that cannot be substituted (`$(...)*`).
+fn substitute_dollar(ts: &TokenStream) -> Option<TokenStream> {
+    let trees: Vec<&TokenTree> = ts.iter().collect();
+    let mut out: Vec<TokenTree> = vec![];
+    let mut i = 0;
+    while i < trees.len() {
+        match trees[i] {
+            TokenTree::Token(t, _) if t.kind == TokenKind::Dollar => match trees.get(i + 1) {
+                Some(TokenTree::Token(n, sp)) => match n.ident() {
+                    Some((id, _)) => {
+                        let name = format!("zz_dollar_{}", id.name.as_str());
+                        out.push(TokenTree::Token(
+                            token::Token::from_ast_ident(rustc_span::symbol::Ident::from_str(&name)),
+                            *sp,
+                        ));
+                        i += 2;
+                    }
+                    None => return None,
+                },
+                _ => return None,
+            },
+            TokenTree::Token(..) => {
+                out.push(trees[i].clone());
+                i += 1;
+            }
+            TokenTree::Delimited(sp, spacing, d, inner) => {
+                let inner = substitute_dollar(inner)?;
+                out.push(TokenTree::Delimited(*sp, *spacing, *d, inner));
+                i += 1;
+            }
+        }
+    }
+    Some(TokenStream::new(out))
+}
+
+fn stream_of(text: &str) -> Option<TokenStream> {
+    let psess = parse::silent_psess();
+    let r = rustc_parse::source_str_to_stream(&psess, rustc_span::FileName::Custom("canon-mac".into()), text.to_string(), None);
+    let out = match r {
+        Ok(ts) => Some(ts),
+        Err(ds) => {
+            for d in ds {
+                d.cancel();
+            }
+            None
+        }
+    };
+    out
+}
+
 impl<'a> Norm<'a> {
-    /// the delimiter of vec!-like macro calls
+    /// Parse `wrapper` as a crate in a fresh session, normalise it with the same rules.
+    fn parse_norm(&self, wrapper: &str) -> Option<ast::Crate> {
+        let psess = parse::silent_psess();
+        let mut k = parse::parse_crate_in(&psess, wrapper).ok()?;
+        let mut n = Norm { opts: self.opts, psess: &psess, depth: self.depth + 1 };
+        n.visit_crate(&mut k);
+        Some(k)
+    }
+
+    /// Macro-call arguments that parse as a list of expressions are compared as
+    /// expressions (trailing separator, parentheses, closure / arm bodies ... inside
+    /// macro invocations); anything else stays a flat token list.
+    fn canon_args(&self, ts: &TokenStream) -> Option<TokenStream> {
+        if self.depth > 6 || ts.is_empty() {
+            return None;
+        }
+        let ts2 = substitute_dollar(ts)?;
+        let text = pprust::tts_to_string(&ts2);
+        for (open, close) in [("zz_call(", ")"), ("[", "]")] {
+            let wrapper = format!("fn zz_w() {{ {open}{text}{close}; }}");
+            let Some(k) = self.parse_norm(&wrapper) else { continue };
+            let Some(item) = k.items.first() else { continue };
+            let ast::ItemKind::Fn(f) = &item.kind else { continue };
+            let Some(body) = &f.body else { continue };
+            if body.stmts.len() != 1 {
+                continue;
+            }
+            let e = match &body.stmts[0].kind {
+                ast::StmtKind::Semi(e) | ast::StmtKind::Expr(e) => e,
+                _ => continue,
+            };
+            let printed = match &e.kind {
+                ast::ExprKind::Call(_, args) => args.iter().map(|a| pprust::expr_to_string(a)).collect::<Vec<_>>().join(" , "),
+                ast::ExprKind::Array(args) => args.iter().map(|a| pprust::expr_to_string(a)).collect::<Vec<_>>().join(" , "),
+                ast::ExprKind::Repeat(a, n) => format!("{} ; {}", pprust::expr_to_string(a), pprust::expr_to_string(&n.value)),
+                _ => continue,
+            };
+            return stream_of(&printed);
+        }
+        None
+    }
+
+    /// A macro body (brace-delimited arguments, `macro_rules!` arm) that parses as the
+    /// statements of a block is compared as code.
+    fn canon_body(&self, ts: &TokenStream) -> Option<TokenStream> {
+        if self.depth > 6 {
+            return None;
+        }
+        let ts2 = substitute_dollar(ts)?;
+        let text = pprust::tts_to_string(&ts2);
+        let wrapper = format!("fn zz_w() {{ {text} }}");
+        let k = self.parse_norm(&wrapper)?;
+        let item = k.items.first()?;
+        stream_of(&pprust::item_to_string(item))
+    }
+
+    /// the delimiter of vec!-like macro calls; arguments as code where they parse
     fn norm_mac(&mut self, m: &mut ast::MacCall) {
         if m.path.segments.len() == 1 && m.path.segments[0].ident.name.as_str() == "vec" {
             m.args.delim = Delimiter::Bracket;
         }
+        let new = if m.args.delim == Delimiter::Brace {
+            self.canon_body(&m.args.tokens).or_else(|| self.canon_args(&m.args.tokens))
+        } else {
+            self.canon_args(&m.args.tokens)
+        };
+        if let Some(ts) = new {
+            m.args.tokens = ts;
+        }
+    }
+
+    /// `macro_rules!` / `macro`: arms `matcher => { body }` separated by `;` (the last
+    /// one optional); bodies as code where they parse.
+    fn norm_macro_def(&mut self, def: &mut ast::MacroDef) {
+        if !def.macro_rules {
+            return;
+        }
+        let trees: Vec<TokenTree> = def.body.tokens.iter().cloned().collect();
+        let mut out: Vec<TokenTree> = vec![];
+        let mut i = 0;
+        while i < trees.len() {
+            // matcher
+            let is_arm = matches!(&trees[i], TokenTree::Delimited(..))
+                && matches!(trees.get(i + 1), Some(TokenTree::Token(t, _)) if t.kind == TokenKind::FatArrow)
+                && matches!(trees.get(i + 2), Some(TokenTree::Delimited(..)));
+            if !is_arm {
+                // not the shape we know: leave the definition alone
+                return;
+            }
+            out.push(trees[i].clone());
+            out.push(trees[i + 1].clone());
+            if let TokenTree::Delimited(sp, spacing, _d, inner) = &trees[i + 2] {
+                let inner2 = self.canon_body(inner).unwrap_or_else(|| inner.clone());
+                // the delimiter of an arm body is free (`{}`, `()`, `[]` all allowed), rustfmt keeps it
+                out.push(TokenTree::Delimited(*sp, *spacing, *_d, inner2));
+            }
+            i += 3;
+            // optional `;`
+            if matches!(trees.get(i), Some(TokenTree::Token(t, _)) if t.kind == TokenKind::Semi) {
+                i += 1;
+            }
+            out.push(TokenTree::Token(token::Token::new(TokenKind::Semi, def.body.dspan.close), rustc_ast::tokenstream::Spacing::Alone));
+        }
+        def.body.tokens = TokenStream::new(out);
     }
 }
 
@@ -475,13 +630,29 @@ fn post_tokens(toks: Vec<String>) -> Vec<String> {
         out.push(toks[i].clone());
         i += 1;
     }
-    // drop a trailing comma inside derive(..): `, )` where the group is a derive list
+    // drop a trailing comma in the argument lists of attributes: `, )` inside `#[ ... ]`
     let mut res: Vec<String> = Vec::with_capacity(out.len());
-    let mut stack: Vec<bool> = vec![]; // is this paren group a derive list?
+    let mut stack: Vec<bool> = vec![]; // is this paren group inside an attribute?
+    let mut attr_depth: Vec<usize> = vec![]; // bracket nesting of open attributes
+    let mut brackets = 0usize;
     for (k, t) in out.iter().enumerate() {
         match t.as_str() {
+            "[" => {
+                brackets += 1;
+                if k > 0 && (out[k - 1] == "#" || (out[k - 1] == "!" && k > 1 && out[k - 2] == "#")) {
+                    attr_depth.push(brackets);
+                }
+                res.push(t.clone());
+            }
+            "]" => {
+                if attr_depth.last() == Some(&brackets) {
+                    attr_depth.pop();
+                }
+                brackets = brackets.saturating_sub(1);
+                res.push(t.clone());
+            }
             "(" => {
-                stack.push(k > 0 && out[k - 1] == "derive");
+                stack.push(!attr_depth.is_empty());
                 res.push(t.clone());
             }
             ")" => {
@@ -584,7 +755,7 @@ pub fn canon(src: &str, edition: u16, opts: &Opts) -> Result<Canon, String> {
         let mut krate = parse::parse_crate_in(&psess, src)?;
         let mut ur = UseRuns { out: vec![] };
         ur.visit_crate(&krate);
-        let mut n = Norm { opts, psess: &psess };
+        let mut n = Norm { opts, psess: &psess, depth: 0 };
         n.visit_crate(&mut krate);
         let printed = pprust::crate_to_string_for_macros(&krate);
         let ts = match rustc_parse::source_str_to_stream(
